@@ -157,7 +157,7 @@ class RewriterScenario:
             for m in c.methods.values():
                 if m.qualname.split(".")[-1] not in ("rewrite", "generic_rewrite"):
                     inline.add(m.fq)
-        self.ri = RepoInterp(repo, fi, inline=inline, call_hook=self.call_hook, may_fork=(), heap=True, max_depth=6)
+        self.ri = RepoInterp(repo, fi, inline=inline, call_hook=self.call_hook, may_fork=(), heap=True, max_depth=16)
         self.ri.self_class = self.ci
         self.ri.on_attr = self.on_attr  # type: ignore[method-assign]
         self.ri.interp.on_attr = self.on_attr
@@ -182,6 +182,13 @@ class RewriterScenario:
         if isinstance(obj, S) and obj.name == "self":
             if attr in self.attrs:
                 return self.attrs[attr]
+            from .common import instance_containers
+            extra = instance_containers(self.repo, self.ci, self.attrs)
+            if attr in extra:
+                key = f"__global__:self.{attr}"
+                if key not in st.env:
+                    st.env[key] = self.ri.interp.eval(extra[attr], st)
+                return st.env[key]
             m = self.repo.method(self.ci, attr)
             if m is not None:
                 return R("boundmethod", name=K(attr))
@@ -256,6 +263,9 @@ class RewriterScenario:
         meth = call.func.attr if isinstance(call.func, ast.Attribute) else None
         if isinstance(fval, S) and fval.name == "self" and meth == "rewrite" and len(args) == 1:
             return args[0]  # members are leaves
+        if isinstance(fval, R) and fval.kind == "rw" and meth == "rewrite" and len(args) == 1:
+            st.effects.append(("rw.rewrite", fval.fields["id"], st.freeze(args[0])))
+            return R("out", by=fval.fields["id"], of=K(repr(st.freeze(args[0]))))  # an opaque member of a chain returns a new object (described, not referenced)
         if d == "getattr" and len(args) >= 2 and isinstance(args[1], K):
             before = st.pending
             v = self.on_attr(args[0], args[1].v, call, st)
